@@ -210,6 +210,10 @@ func (c *Ctx) PanicSites(fn *ssa.Function) []*PanicSite {
 					if cst, ok := mi.X.(*ssa.Const); ok && cst.Value != nil && strings.Contains(cst.Value.ExactString(), "blocking select matched no case") {
 						continue // compiler-generated, unreachable: a blocking select always matches a case
 					}
+					if cst, ok := mi.X.(*ssa.Const); ok && cst.Value != nil && (strings.Contains(cst.Value.ExactString(), "yield function called after range loop exit") ||
+						strings.Contains(cst.Value.ExactString(), "iterator call did not preserve panic")) {
+						continue // protocol checks the SSA builder inserts around a range-over-func loop; they guard the iterator, which here is a standard-library one
+					}
 				}
 				add(in, "panic", x.X, nil, nil, "panic("+ex(x.X)+")")
 			case *ssa.MakeSlice:
@@ -683,7 +687,19 @@ func nonNegative(e *Ex) bool {
 		return !strings.HasPrefix(e.S, "-")
 	case "len":
 		return true
+	case "call":
+		// library functions that map a non-negative size to a non-negative size
+		switch e.S {
+		case "encoding/hex.EncodedLen", "encoding/hex.DecodedLen":
+			return len(e.Args) == 1 && nonNegative(e.Args[0])
+		}
+		if strings.HasSuffix(e.S, ".EncodedLen") || strings.HasSuffix(e.S, ".DecodedLen") {
+			return len(e.Args) >= 1 && nonNegative(e.Args[len(e.Args)-1])
+		}
 	case "bin":
+		if e.S == "*" {
+			return nonNegative(e.Args[0]) && nonNegative(e.Args[1])
+		}
 		if e.S == "+" {
 			return nonNegative(e.Args[0]) && nonNegative(e.Args[1]) || (e.Args[0].K == "acc" && isConst(e.Args[0].Args[0], "-1") && isConst(e.Args[1], "1"))
 		}
